@@ -36,6 +36,7 @@ Types1 ==    {TList(a) : a \in Types0} \cup {TSet(a) : a \in Types0} \cup {TTupV
         \cup {TDict(a, b) : a \in Keys, b \in Types0}
         \cup {TTup(<<>>)} \cup {TTup(<<a>>) : a \in Types0} \cup {TTup(<<a, b>>) : a \in Small, b \in Small}
         \cup {TType(c) : c \in {"A", "B", "C", "int", "any"}}
+        \cup {TTypeU(<<"A", "int">>), TTypeU(<<"B", "C">>), TTypeU(<<"int", "str">>)}
         \cup {TUnion(<<a, b>>) : a \in Small \cup {TBase("bool"), TUser("B")}, b \in Small \cup {TBase("bool"), TUser("B")}}
 Mid    == {TList(TBase("int")), TList(TBase("str")), TDict(TBase("str"), TBase("int")), TTup(<<TBase("int"), TBase("str")>>), TSet(TBase("int")),
            TUnion(<<TBase("int"), TBase("none")>>), TTupVar(TBase("int")), TList(TAny), TUnion(<<TBase("int"), TBase("str")>>)}
